@@ -13,6 +13,7 @@ def parseOp? (t : String) : Option Op :=
   | ["c", s] => do pure (.commit (← s.toNat?))
   | ["f", s] => do pure (.tryflush (← s.toNat?))
   | ["r", s] => do pure (.rollback (← s.toNat?))
+  | ["n", s] => do pure (.nested (← s.toNat?))
   | _ => none
 
 def parseOps? (s : String) : Option (List Op) :=
